@@ -64,6 +64,10 @@ macro_rules! dispatch {
                 let $p = PP(props::c10::C10);
                 $body
             }
+            "C16" => {
+                let $p = props::c16::C16;
+                $body
+            }
             "C17" => {
                 let $p = PP(props::c17::C17);
                 $body
